@@ -718,6 +718,9 @@ func genC10(w *bufio.Writer, rng *hx.Rng, tier string) {
 		c10MarksLine(w, 3, recs, order)
 	}
 
+	// ---- the real Start -> Assigned -> consume -> Commit path, topic lists with duplicates
+	genC10Start(w, rng, thorough)
+
 	// ---- the real pipeline in spread mode
 	npipe := 700
 	if thorough {
